@@ -16,7 +16,7 @@ RULE = (
     "constructor keywords, options, MIDI bindings, type-specific payload: curves, waveforms, harmonics, mapping tables, Vorbis data, sampler "
     "samples/envelopes/effect, embedded projects) for all 42 non-Output types; a guaranteed sweep visits every type per shard in addition to the "
     "random draw. Each module is checked in both contexts (Synth(mod) and inside a one-module project), through clone(), and the two contexts are "
-    "compared with each other. distinct = recipe hash; non-trivial = a controller at a range end / negative-min controller at its minimum / "
+    "compared with each other; half of the cases continue with a second recipe applied to the same, already saved and cloned objects (second generation). distinct = recipe hash; non-trivial = a controller at a range end / negative-min controller at its minimum / "
     "unit-dependent controller set, or a non-default payload, option or binding"
 )
 ASSUMPTIONS = [
@@ -24,7 +24,7 @@ ASSUMPTIONS = [
     "x, y, layer and visualization are not part of stand-alone synth files (documented) and are excluded from the synth-context comparison",
 ]
 REQUIRED_LABELS = {
-    "quick": ["neg_min_ctl_at_min", "ctl_at_range_end", "dependent_ctl_set", "payload_nondefault", "options_set", "cmid_set", "empty_synth"],
+    "quick": ["neg_min_ctl_at_min", "ctl_at_range_end", "dependent_ctl_set", "payload_nondefault", "options_set", "cmid_set", "empty_synth", "second_generation"],
     "thorough": ["neg_min_ctl_at_min", "ctl_at_range_end", "dependent_ctl_set", "unit_changed", "payload_nondefault", "options_set", "cmid_set", "empty_synth", "sampler_with_samples", "sampler_with_effect", "metamodule_user_ctls", "name_straddles_32"]
     + ["type_" + t for t in build.attachable_types()],
 }
@@ -84,11 +84,34 @@ def check_module_spec(ctx, ms):
         raise PropertyViolation("C02.project.type", "%s in a project came back as %r" % (tname, q.modules[1:] and type(q.modules[1]).__name__))
     sp1 = snapshot.snap_module(q.modules[1], in_project=True)
     expect_equal(sp0, sp1, "C02.project.roundtrip", "%s project round trip" % tname)
+    # (e) second generation on the same in-memory objects: they have been saved (and cloned) already;
+    # now they are edited again through the API (in-place payload edits included) and must still
+    # save what they hold - nothing from the first serialisation may be reused
+    ms2 = ms.get("then")
+    if ms2:
+        for context, target, container in (("synth", mod, Synth(mod)), ("project", mod2, p)):
+            build.apply_spec(target, dict(ms2, _ctor_as_sets=True))
+            inp = context == "project"
+            g0 = snapshot.snap_module(target, in_project=inp)
+            back2 = read_sunvox_file(BytesIO(container.read()))
+            bm = back2.module if context == "synth" else back2.modules[1]
+            expect_equal(g0, snapshot.snap_module(bm, in_project=inp), "C02.second_generation." + context, "%s edited after it had been saved once" % tname)
     # (d) the two writers agree on everything that is in both kinds of file
     common = dict(sp1)
     for k in ("x", "y", "layer", "visualization", "links"):
         common.pop(k, None)
     expect_equal(s1, common, "C02.contexts_agree", "%s: synth vs project context" % tname)
+
+
+from hypothesis import strategies as _st
+
+
+@_st.composite
+def spec_with_followup(draw, **kw):
+    ms = draw(build.module_spec(**kw))
+    if draw(_st.booleans()):
+        ms["then"] = draw(build.module_spec(in_project=kw.get("in_project", True), depth=0 if ms["type"] in ("MetaModule", "Sampler") else 1, tname=ms["type"]))
+    return ms
 
 
 def run_shard(ctx, desc):
@@ -121,6 +144,8 @@ def run_shard(ctx, desc):
         ctx.case()
         check_module_spec(ctx, ms)
         labels = build.module_labels(ms)
+        if ms.get("then"):
+            labels = labels | {"second_generation"}
         ctx.label(*labels)
         if build.module_nontrivial(labels):
             ctx.mark_nontrivial(ms)
@@ -130,9 +155,9 @@ def run_shard(ctx, desc):
     depth = 1 if ctx.tier == "quick" else 2
     # guaranteed sweep of this shard's share of the 42 types, then the random draw
     for t in desc["sweep"]:
-        if not run_property(ctx, build.module_spec(in_project=True, depth=depth, tname=t, dense=True), body, 12 if ctx.tier == "quick" else 60, tag="sweep_" + t, bucket="module"):
+        if not run_property(ctx, spec_with_followup(in_project=True, depth=depth, tname=t, dense=True), body, 12 if ctx.tier == "quick" else 60, tag="sweep_" + t, bucket="module"):
             return
-    run_property(ctx, build.module_spec(in_project=True, depth=depth), body, desc["examples"], tag="random", bucket="module")
+    run_property(ctx, spec_with_followup(in_project=True, depth=depth), body, desc["examples"], tag="random", bucket="module")
 
 
 def replay(ctx, doc):
